@@ -209,6 +209,7 @@ func buildIntrinsics() map[string]intrinsic {
 		return ex.st.Bin(OSub, now.F[1].(*Term), nanos(a))
 	}
 	m["(time.Time).Format"] = func(ex *Exec, fn *ssa.Function, a []Value) Value {
+		ex.notePlaceholder("time.Format of a symbolic clock reading")
 		return ex.mkStr("Thu, 01 Jan 1970 00:00:00 UTC")
 	}
 	m["(time.Time).Add"] = func(ex *Exec, fn *ssa.Function, a []Value) Value {
@@ -441,7 +442,10 @@ func buildIntrinsics() map[string]intrinsic {
 		return Tuple{ex.st.Const(64, 30000), Iface{}}
 	}
 	m["os.Getwd"] = func(ex *Exec, fn *ssa.Function, a []Value) Value { return Tuple{ex.mkStr("/"), Iface{}} }
-	m["encoding/hex.Dump"] = func(ex *Exec, fn *ssa.Function, a []Value) Value { return ex.mkStr("<hexdump>") }
+	m["encoding/hex.Dump"] = func(ex *Exec, fn *ssa.Function, a []Value) Value {
+		ex.notePlaceholder("hex.Dump")
+		return ex.mkStr("<hexdump>")
+	}
 	m["os.Exit"] = func(ex *Exec, fn *ssa.Function, a []Value) Value {
 		ex.require(ex.st.F, "os.Exit called")
 		return nil
